@@ -26,7 +26,7 @@ import ast, os, re, json, subprocess, time, textwrap
 Z, F, OF, B, OZ = "Z", "F", "OF", "B", "OZ"
 COQTY = {Z: "Z", F: "R", OF: "option R", B: "bool", OZ: "option Z", "LV": "list (list R)",
          # tensor kernels (row-wise semantics, see VecTr): vectors, matrices, 0/1 configurations, complex pairs
-         "V": "list R", "M": "list (list R)", "BV": "bits", "OBV": "option bits", "C": "(R * R)"}
+         "V": "list R", "M": "list (list R)", "BV": "bits", "OBV": "option bits", "C": "(R * R)", "LBV": "list bits"}
 
 
 class Untranslatable(Exception):
@@ -894,6 +894,10 @@ class VecTr(Tr):
                 x, tx = self.expr(f.value, env)
                 if tx == "V":
                     return "(sum ROps %s)" % x, F
+            if meth == "logsumexp" and not kw and [ast.unparse(a) for a in args] == ["0"]:
+                x, tx = self.expr(f.value, env)
+                if tx == "V":                               # over the rows of a batch (one real per row)
+                    return "(ln (sum ROps (map exp %s)))" % x, F
             if meth in ("mean",) and not kw and [ast.unparse(a) for a in args] in (["1"], ["-1"]):
                 x, tx = self.expr(f.value, env)
                 if tx in ("V", "BV"):
